@@ -470,6 +470,64 @@ func c10Run(c *core.Ctx) {
 		}
 	}
 
+	// (1d) string literals made of every PAIR of escape / text fragments (both quote styles), followed by
+	// another token: the literal must end at its own closing quote (compared with the independent tokenizer)
+	{
+		fr := c07Fragments(1000)
+		for i, f1 := range fr {
+			for j, f2 := range fr {
+				if !c.Mine(int64(i*len(fr)+j)) || c.Tick() {
+					continue
+				}
+				for _, q := range []string{"'", "\""} {
+					lit := q + f1 + f2 + q
+					src := lit + " z"
+					c.Cur(src)
+					ok, k, d := fragCheck(lb, src, []string{lit, "z"})
+					if !ok {
+						c.Inc("fragment_texts_outside_domain")
+						continue
+					}
+					c.Inc("inputs")
+					c.Inc("escape_pair_strings")
+					if k != "" && c.ShrinkOK("pair"+k) {
+						pl, _ := json.Marshal(c10Payload{Src: []byte(src), Frags: []string{lit, "z"}})
+						c.Violate(core.Violation{Kind: "frag-" + k, Config: "escape-pair", Case: fmt.Sprintf("%q", src), Detail: d, Payload: pl, Size: len(src)})
+					}
+				}
+			}
+		}
+		// every code point of U+2000..U+203F and one per UTF-8 length inside a comment, a string and a template
+		var cps []rune
+		for r := rune(0x2000); r <= 0x203F; r++ {
+			cps = append(cps, r)
+		}
+		cps = append(cps, 0x80, 0xA0, 0xE9, 0x7FF, 0x800, 0xFEFF, 0xFFFD, 0xFFFF, 0x10000, 0x1F600, 0x10FFFF)
+		for i, r := range cps {
+			if !c.Mine(int64(i)) {
+				continue
+			}
+			for _, src := range []string{"a // x" + string(r) + "y\nb", "'x" + string(r) + "y' b", "`x" + string(r) + "\n" + string(r) + "` b", "a" + string(r) + "b", string(r) + "a"} {
+				c.Cur(src)
+				c.Inc("inputs")
+				c.Inc("code_point_inputs")
+				if k, d := lexCheck(lb, src); k != "" && c.ShrinkOK("cp"+k) {
+					pl, _ := json.Marshal(c10Payload{Src: []byte(src)})
+					c.Violate(core.Violation{Kind: k, Config: "code-point", Case: fmt.Sprintf("%q", src), Detail: d, Payload: pl, Size: len(src)})
+				}
+			}
+			// well-formed ones also against the independent tokenizer (LS/PS are line terminators in JavaScript
+			// comments; the subset's lexer is LF-based: left out of this comparison)
+			if r != 0x2028 && r != 0x2029 {
+				src := "a // x" + string(r) + "y\nb"
+				if ok, k, d := fragCheck(lb, src, []string{"a", "b"}); ok && k != "" {
+					pl, _ := json.Marshal(c10Payload{Src: []byte(src), Frags: []string{"a", "b"}})
+					c.Violate(core.Violation{Kind: "frag-" + k, Config: "code-point", Case: fmt.Sprintf("%q", src), Detail: d, Payload: pl, Size: len(src)})
+				}
+			}
+		}
+	}
+
 	// (2) fragment sequences x separators vs R-tok
 	F := c10Fragments
 	maxLen, seps := 3, c10Seps
